@@ -543,7 +543,7 @@ func ruleKindSwitch(c *Ctx) {
 // ---------- TC ----------
 
 func ruleTC(c *Ctx) {
-	c.R.Rule("TC", 30, "checker obligations, one per syntactic form: no recursive Check result is dropped; list elements / map keys / map values after the first are each compared with the first by typeAssert; map keys primitive; arity asserted and every parameter/argument pair compared; subscript only on list (index num) or map (index key type); member only on objects that have the field; mono overload looked up before poly, first matching poly in registration order with its index recorded; instantiation returned only when the result is slot-free; reserved words rejected; every annotation the back ends read is written before the arm returns")
+	c.R.Rule("TC", 28, "checker obligations, one per syntactic form: no recursive Check result is dropped; list elements / map keys / map values after the first are each compared with the first by typeAssert; map keys primitive; arity asserted and every parameter/argument pair compared; subscript only on list (index num) or map (index key type); member only on objects that have the field; mono overload looked up before poly, first matching poly in registration order with its index recorded; instantiation returned only when the result is slot-free; reserved words rejected; every annotation the back ends read is written before the arm returns")
 	fd := c.FuncDecl("types", "Check")
 	if fd == nil {
 		c.R.Anchor("types.Check")
